@@ -631,11 +631,10 @@ def conv_seq(np, tag, vs):
 
 
 def typed_point(np, x, k):
-    """an evaluation point as an object of another numeric type that represents it exactly.
-    np.float32: numpy evaluates float32 (op) Python-float in binary32 (the Python float is the weak
-    operand), so fit_function(np.float32(x)) is the model in SINGLE precision; the property does not
-    say in which precision a binary32 argument is to be processed, so such a point is judged with
-    the binary32 rounding unit (props/_fitcheck.py: F32_SLACK), every other type in binary64"""
+    """an evaluation point as an object of another numeric type that represents it exactly
+    (Fraction always; numpy integers where the point is whole; np.float32 where it is a binary32
+    number -- all judged in binary64 like a float: fit_function converts numpy numbers, fixes
+    e4aa6c1 / f2dbd01)"""
     from fractions import Fraction
     x = float(x)
     opts = [Fraction(x)]
@@ -694,9 +693,11 @@ def _typed_problem(rng, family, degree, grid, sy, want_range):
         return None
     # uncertainties on the grid: common, or per point with a spread of 1..6
     skind = sy or rng.choice(["common", "point", "point", "point", "none"])
-    unit = max(grid, round(0.02 * top / grid) * grid)
+    # (the iterative models get the 1 % scatter of gen_case: with 2-12 % on a curve cut by an
+    # x-range the optimum itself can be lost -- thorough tier, a*sin(b*x) on its rising part)
+    unit = max(grid, round((0.02 if poly else 0.01) * top / grid) * grid)
     yerr = None if skind == "none" else unit * rng.randint(1, 3) if skind == "common" else \
-        [unit * rng.randint(1, 6) for _ in range(n)]
+        [unit * rng.randint(1, 6 if poly else 4) for _ in range(n)]
     xkind, xerr = "none", None
     if not poly:
         xkind = rng.choice(["none", "none", "common", "point", "zeros"])
@@ -709,7 +710,7 @@ def _typed_problem(rng, family, degree, grid, sy, want_range):
                     for _ in range(n)]
             if not any(xerr):
                 xerr[rng.randrange(n)] = grid
-    sig = as_list(yerr, n) if yerr is not None else [unit] * n
+    sig = as_list(yerr, n) if (yerr is not None and poly) else [unit] * n
     ys = [round((v + rng.gauss(0, 1) * s) / grid) * grid + 0.0 for v, s in zip(ys0, sig)]
     case.update({"x": [float(v) for v in xs], "y": ys, "xerr": xerr, "yerr": yerr,
                  "ptrue": ptrue, "pscale": pscale, "noise_free": False, "sx": xkind,
@@ -768,7 +769,12 @@ def gen_typed(rng, family=None, degree=None, grid=None, force=None, want_range=N
             vals = case[key[0]]
             route = None if err is None else "kw" if plain else fo.get(key + "_route") or \
                 rng.choice([r for r in ERR_ROUTES if r != "kw"])
-            if route and route.startswith("relative") and (key == "xerr" or any(v == 0 for v in vals)):
+            if route and route.startswith("relative") and (
+                    key == "xerr" or min(abs(v) for v in vals) * 8 < max(abs(v) for v in vals)):
+                # sigma_i = |y_i|/4 on data that span more than a factor 8 (or cross zero) gives
+                # weights spread over more than 64: the few smallest ordinates decide the fit, and
+                # for the iterative models scipy's termination then misses the certificate
+                # (thorough tier: no convergence / a flat direction) -- not this class's subject
                 route = "setter"
             T[key + "_route"] = route
             if route is None:
@@ -1253,6 +1259,15 @@ def observe(q, case, drop_xerr=False, full=True, use_range=True):
                     tl = r.fit_function(tp)
                     out["fit_typedlist" + sfx] = [[float(v.value), float(v.error)] for v in tl]
                     out["fit_typedlist_types" + sfx] = [type(x).__name__ for x in tp]
+                    # arrays of the other dtypes, where every point is representable
+                    for dt_, key in ((np.float32, "fit_array_f32"), (np.int64, "fit_array_i64"),
+                                     (np.int32, "fit_array_i32")):
+                        try:
+                            ta = conv_seq(np, "array:" + dt_.__name__, xs)
+                        except (ValueError, OverflowError):
+                            continue
+                        res_ = r.fit_function(ta)
+                        out[key + sfx] = [[float(v.value), float(v.error)] for v in res_]
                 if case.get("hist") and case.get("hist_first"):
                     pass        # nothing evaluated before the history
                 else:
@@ -1270,8 +1285,10 @@ def observe(q, case, drop_xerr=False, full=True, use_range=True):
                     out["str@after"] = str(r)
                     if case.get("hist_first"):
                         for k in ("fit", "fit_list", "fit_list_type", "fit_array", "fit_array_type",
-                                  "fit_npscalar", "fit_typed", "fit_typedlist"):
-                            out[k] = out[k + "@after"]
+                                  "fit_npscalar", "fit_typed", "fit_typedlist", "fit_array_f32",
+                                  "fit_array_i64", "fit_array_i32"):
+                            if k + "@after" in out:
+                                out[k] = out[k + "@after"]
         except Exception as e:  # noqa: BLE001
             out["exception"] = "{}: {}".format(type(e).__name__, e)
     if holder:
